@@ -799,6 +799,24 @@ func (e *OrdEngine) storeCell(ck cellKey, va AV, f *Fact) {
 	}
 }
 
+// hasBoolFlag: t is bool or a struct with a bool field (one level of nesting).
+func hasBoolFlag(t types.Type, depth int) bool {
+	switch u := t.Underlying().(type) {
+	case *types.Basic:
+		return u.Kind() == types.Bool
+	case *types.Struct:
+		if depth > 1 {
+			return false
+		}
+		for i := 0; i < u.NumFields(); i++ {
+			if hasBoolFlag(u.Field(i).Type(), depth+1) {
+				return true
+			}
+		}
+	}
+	return false
+}
+
 // zeroFlag: a bool read from memory that was created on this path and never written since is false.
 func (e *OrdEngine) zeroFlag(ck cellKey, t types.Type, f *Fact) (AV, bool) {
 	if bt, ok := t.Underlying().(*types.Basic); !ok || bt.Kind() != types.Bool {
@@ -1391,7 +1409,10 @@ func (e *OrdEngine) step(ins ssa.Instruction, fr *Frame, f *Fact) []*Fact {
 				delete(f.Cells, k) // re-executed in a loop: a new object
 			}
 		}
-		f.Cells[cellKey{x, "#fresh"}] = AV{K: avTrue}
+		if hasBoolFlag(x.Type().(*types.Pointer).Elem(), 0) {
+			// only objects that carry a flag are worth remembering as "still zero" (keeps partitions few)
+			f.Cells[cellKey{x, "#fresh"}] = AV{K: avTrue}
+		}
 		if e.Spec.Instr != nil {
 			e.Spec.Instr(cx, ins, f)
 		}
